@@ -106,8 +106,7 @@ def main(pid, argv):
                             break
         if bad:
             nf += 1
-            if nf <= 3:
-                ck.fail("e2e-roundtrip", line, bad, impl=il[:1500], model=ml[:1500])
+            ck.fail("e2e-roundtrip", line, bad, impl=il[:1500], model=ml[:1500])
             continue
         if il.split(" released=")[0] != ml:
             ck.tie_broken("client/handler observables differ from the model", line[:1500], il[:800], ml[:800])
